@@ -36,7 +36,7 @@ func runC12(c *Ctx) {
 	R.Rules["E3.field"] = "the echoed-serial field of each response type is read from the wire at the standard's offset"
 	R.Rules["E3.accept-min"] = "each response parser accepts the shortest body the standard allows for that response (spec/responses.json min_body): a successful return exists that is feasible for that length"
 	R.Rules["S.complete"] = "a completion is delivered to the reply channel of the recorded request and the record is deleted right after; a matched response carries the matched key; unmatched traffic falls through to the normal reply"
-	R.Rules["E5.timeout-capture"] = "the timeout goroutine of a command works on what was fixed when the command was written - captured values and the completion message built for that command - and on the connection's channels; it does not read the caller's ActiveMessage (which the writer re-stamps with a new serial when the caller sends it again) nor other mutable connection state after its wait"
+	R.Rules["E5.timeout-capture"] = "the timeout goroutine of a command works on what was fixed when the command was written - captured values and the completion message built for that command - and on the connection's channels; it does not read the caller's ActiveMessage (which the writer re-stamps with a new serial when the caller sends it again) nor other mutable connection state after its wait, and it does not touch the writer's table of outstanding commands (a map confined to the writer goroutine)"
 	R.Rules["E5.timeout"] = "see C13: a timeout goroutine is started for every duration >= 0"
 	var spec responsesSpec
 	if !c.loadSpec("responses.json", &spec) {
@@ -712,6 +712,22 @@ func (c *Ctx) timeoutCapture(onActive *ssa.Function) {
 				nGo++
 				var bad []string
 				seen := map[*ssa.Function]bool{}
+				// a map that reaches the goroutine from outside (captured variable or parameter): the writer's table of
+				// outstanding commands is confined to the writer goroutine - an unsynchronised read from a timer races with
+				// the writer's inserts and deletes ("concurrent map read and map write" ends the process)
+				capturedMap := func(v ssa.Value) bool {
+					for depth := 0; depth < 4; depth++ {
+						switch x := v.(type) {
+						case *ssa.FreeVar, *ssa.Parameter:
+							return true
+						case *ssa.UnOp:
+							v = x.X
+							continue
+						}
+						break
+					}
+					return false
+				}
 				var scan func(fn *ssa.Function, depth int)
 				scan = func(fn *ssa.Function, depth int) {
 					if seen[fn] || depth > 3 || len(fn.Blocks) == 0 {
@@ -735,7 +751,24 @@ func (c *Ctx) timeoutCapture(onActive *ssa.Function) {
 										bad = append(bad, fmt.Sprintf("%s touches the connection's %s at %s", shortFn(fn), ft.Name(), c.P.RelPos(x.Pos())))
 									}
 								}
+							case *ssa.Lookup:
+								if _, isMap := x.X.Type().Underlying().(*types.Map); isMap && capturedMap(x.X) {
+									bad = append(bad, fmt.Sprintf("%s looks a key up in a map it was handed by the writer (%s) at %s", shortFn(fn), x.X.Name(), c.P.RelPos(x.Pos())))
+								}
+							case *ssa.MapUpdate:
+								if capturedMap(x.Map) {
+									bad = append(bad, fmt.Sprintf("%s updates a map it was handed by the writer at %s", shortFn(fn), c.P.RelPos(x.Pos())))
+								}
+							case *ssa.Range:
+								if _, isMap := x.X.Type().Underlying().(*types.Map); isMap && capturedMap(x.X) {
+									bad = append(bad, fmt.Sprintf("%s ranges over a map it was handed by the writer at %s", shortFn(fn), c.P.RelPos(x.Pos())))
+								}
 							case ssa.CallInstruction:
+								if bi, isB := x.Common().Value.(*ssa.Builtin); isB && (bi.Name() == "delete" || bi.Name() == "len" || bi.Name() == "clear") && len(x.Common().Args) > 0 {
+									if _, isMap := x.Common().Args[0].Type().Underlying().(*types.Map); isMap && capturedMap(x.Common().Args[0]) {
+										bad = append(bad, fmt.Sprintf("%s applies %s to a map it was handed by the writer at %s", shortFn(fn), bi.Name(), c.P.RelPos(ins.Pos())))
+									}
+								}
 								if sc := x.Common().StaticCallee(); sc != nil && c.P.IsRepoFunc(sc) && pkgOf(sc) == pkgOf(onActive) {
 									scan(sc, depth+1)
 								}
